@@ -4,6 +4,7 @@ import (
 	"encoding/base32"
 	"fmt"
 	"net"
+	"os"
 	"runtime"
 	"time"
 
@@ -11,6 +12,7 @@ import (
 
 	"gitlab.com/yawning/obfs4.git/common/socks5"
 	"gitlab.com/yawning/obfs4.git/transports"
+	"gitlab.com/yawning/obfs4.git/transports/base"
 
 	"verifsim/harness"
 	"verifsim/ref/obfsref"
@@ -469,9 +471,19 @@ func c10SS(c *harness.Ctx) {
 	secret := make([]byte, 20)
 	c.Rand.Fill("cfg.secret", secret)
 	server := &obfsref.SSServer{Secret: secret}
-	cf, err := transports.Get("scramblesuit").ClientFactory(scratchDir())
+	// a state directory of its own for every run (tickets must not leak between runs)
+	dir, derr := os.MkdirTemp(scratchDir(), "ss-")
+	if derr != nil {
+		panic(derr)
+	}
+	defer os.RemoveAll(dir)
+	cf, err := transports.Get("scramblesuit").ClientFactory(dir)
 	if err != nil {
 		panic(err)
+	}
+	if t.Draw("ssticket", 3) == 2 {
+		c10SSTicket(c, cf, server, secret)
+		return
 	}
 	link := c.Net.NewLink("c", "r")
 	configurePipe(c, link.AB, "c2s")
@@ -572,6 +584,108 @@ func c10SS(c *harness.Ctx) {
 		c.Violate("C10/handshake-deadline-not-enforced", "scramblesuit client with %s at %d: Dial took %v", op, at, d)
 	} else if hs.err == nil && !rd.done && (op == "truncate-eof" || op == "truncate-rst") && c.S.Counters["fault."+simnet.FaultCutEOF]+c.S.Counters["fault."+simnet.FaultCutRST] > 0 {
 		c.Violate("C10/read-never-returns", "scramblesuit client: stream cut (%s at %d) and Read is still blocked", op, at)
+	}
+}
+
+// c10SSTicket: a first connection obtains a session ticket, a second one uses
+// it; the handshake deadline must be disarmed on that path too, and the
+// established connection must survive more than the handshake timeout.
+func c10SSTicket(c *harness.Ctx, cf base.ClientFactory, server *obfsref.SSServer, secret []byte) {
+	t := c.T
+	c.Feature("ss-ticket-path")
+	args := &pt.Args{}
+	args.Add("password", base32.StdEncoding.EncodeToString(secret))
+	for round := 0; round < 2; round++ {
+		link := c.Net.NewLink(fmt.Sprintf("c%d", round), "r")
+		configurePipe(c, link.AB, "c2s")
+		configurePipe(c, link.BA, "s2c")
+		var viaTicket, srvUp bool
+		var sess *obfsref.SS
+		c.S.Go(fmt.Sprintf("r/server%d", round), func() {
+			var buf []byte
+			tmp := make([]byte, 4096)
+			priv := make([]byte, 192)
+			c.Rand.Fill("ref.key", priv)
+			key := obfsref.NewUDH(priv, false)
+			for {
+				n, err := link.B.Read(tmp)
+				buf = append(buf, tmp[:n]...)
+				if r, aerr := server.Accept(buf, nowHour(), key, make([]byte, t.Draw("spad", 200))); aerr == nil {
+					viaTicket, sess = r.Ticket != nil, r.Session
+					out := r.Reply
+					tk := &obfsref.SSTicket{Key: make([]byte, 32), Ticket: make([]byte, 112)}
+					c.Rand.Fill("ref.ticket", tk.Key)
+					c.Rand.Fill("ref.ticket", tk.Ticket)
+					server.Tickets = append(server.Tickets, tk)
+					out = append(out, sess.Packet(obfsref.SSFlagNewTicket, append(append([]byte{}, tk.Key...), tk.Ticket...), 0)...)
+					out = append(out, sess.Packet(obfsref.SSFlagPayload, []byte("hello"), 0)...)
+					link.B.Write(out)
+					srvUp = true
+					// after the idle period: more data
+					c.S.Sleep(3 * time.Minute)
+					link.B.Write(sess.Packet(obfsref.SSFlagPayload, []byte("world"), 0))
+					for {
+						if _, err := link.B.Read(tmp); err != nil {
+							return
+						}
+					}
+				}
+				if err != nil {
+					return
+				}
+			}
+		})
+		var dialErr, rdErr, wrErr error
+		var done bool
+		got := 0
+		c.S.Go(fmt.Sprintf("c%d/main", round), func() {
+			defer func() { done = true }()
+			pa, err := cf.ParseArgs(args)
+			if err != nil {
+				panic(err)
+			}
+			conn, err := cf.Dial("tcp", "10.0.0.2:443", dialTo(link.A), pa)
+			if err != nil {
+				dialErr = err
+				return
+			}
+			if !link.A.ReadDeadline().IsZero() {
+				c.Violate("C10/handshake-deadline-left-armed", "scramblesuit client (round %d, ticket handshake: %v): handshake succeeded but a deadline is still armed on the connection", round, round == 1)
+				return
+			}
+			buf := make([]byte, 64)
+			for got < 10 {
+				n, err := conn.Read(buf)
+				got += n
+				if err != nil {
+					rdErr = err
+					return
+				}
+				if got == 5 {
+					// idle for longer than the handshake timeout, then talk again
+					c.S.Sleep(2 * time.Minute)
+					if _, err := conn.Write([]byte("still here")); err != nil {
+						wrErr = err
+						return
+					}
+				}
+			}
+			conn.Close()
+		})
+		c.S.Run(func() bool { return done }, 10*time.Minute)
+		c.Reached, c.Nontrivial = true, true
+		if c.S.Violated() {
+			return
+		}
+		if !done || dialErr != nil || rdErr != nil || wrErr != nil || got != 10 {
+			c.Violate("C10/established-connection-died-when-idle", "scramblesuit client round %d (server saw a ticket handshake: %v, server up: %v): dial err %v, read err %v, write err %v, read %d of 10 bytes across a 2-3 minute idle period (stale handshake timer?)", round, viaTicket, srvUp, dialErr, rdErr, wrErr, got)
+			return
+		}
+		if round == 1 && viaTicket {
+			c.Feature("ss-ticket-handshake-survived-idle")
+		}
+		link.A.Close()
+		link.B.Close()
 	}
 }
 
